@@ -175,6 +175,8 @@ func Redundant(b bool) bool {
 """,
     "side/side.go": """package side
 
+//lint:file-ignore SA4000 the same problem is also covered by a line directive below (two directives, one problem)
+
 import "ex.test/m/util"
 
 // Calc ignores the result of a pure function from a dependency.
@@ -188,6 +190,23 @@ func Calc(x int) int {
 }
 
 type unusedType struct{}
+
+// Twin is covered by the file-wide directive and by its own line directive; both count as matched,
+// whatever the order in which the directives are met.
+func Twin(x int) bool {
+	//lint:ignore SA4000 covered twice on purpose
+	return x == x
+}
+
+// Thrice carries two line directives for one problem.
+func Thrice(x int) bool {
+	//lint:ignore SA4000 first of two
+	//lint:ignore SA4000,S1008 second of two
+	if x != x {
+		return true
+	}
+	return false
+}
 """,
 }
 PKGS = ["base", "util", "mid", "top", "side"]
